@@ -1,6 +1,7 @@
 // Shared by C01 / C19 / C20: the eight explicit inclusion selections, driven
 // exactly the way cli/operations.hh and unit_tests/tree_aut_test.hh drive them.
 #pragma once
+#include <memory>
 #include "../engine/ctx.hh"
 #include "../engine/ref_ta.hh"
 
@@ -52,6 +53,11 @@ inline bool reference_verdict(eng::Ctx& ctx, const ref::TA& A, const ref::TA& B,
 	return true;
 }
 
+// how run_selection hands the simulation relation over (set by the harness from a generated word):
+// 0 the object ComputeSimulation was assigned to, 1 a copy-constructed relation whose original was destroyed,
+// 2 a copy-assigned one
+inline int& relation_variant() { static int v = 0; return v; }
+
 // one selection through the CLI protocol; returns the verdict
 inline bool run_selection(eng::Ctx& ctx, const VATA::ExplicitTreeAut& a, const VATA::ExplicitTreeAut& b,
 	const Cfg& cfg, const std::string& phasePrefix)
@@ -61,15 +67,19 @@ inline bool run_selection(eng::Ctx& ctx, const VATA::ExplicitTreeAut& a, const V
 	eng::LibSection ls(ctx, phasePrefix + cfg.name);
 	ExplicitTreeAut s(a), g(b);
 	VATA::AutBase::StateType states = VATA::AutBase::SanitizeAutsForInclusion(s, g);
-	VATA::AutBase::StateDiscontBinaryRelation sim;
+	typedef VATA::AutBase::StateDiscontBinaryRelation Rel;
+	std::unique_ptr<Rel> sim(new Rel);
 	if (cfg.sim) {
 		ExplicitTreeAut u = ExplicitTreeAut::UnionDisjointStates(s, g);
 		VATA::SimParam sp;
 		sp.SetRelation(cfg.down ? VATA::SimParam::e_sim_relation::TA_DOWNWARD
 		                        : VATA::SimParam::e_sim_relation::TA_UPWARD);
 		sp.SetNumStates(states);
-		sim = u.ComputeSimulation(sp);
-		ip.SetSimulation(&sim);
+		*sim = u.ComputeSimulation(sp);
+		// the relation is a value: a caller may hand over a copy whose original is gone
+		if (relation_variant() == 1) { std::unique_ptr<Rel> cp(new Rel(*sim)); sim = std::move(cp); }
+		else if (relation_variant() == 2) { std::unique_ptr<Rel> cp(new Rel); *cp = *sim; sim = std::move(cp); }
+		ip.SetSimulation(sim.get());
 	}
 	return ExplicitTreeAut::CheckInclusion(s, g, ip);
 }
